@@ -1,0 +1,5 @@
+//! Verification hooks (only with `--cfg walrus_verif`): named points in the append, rollover and read paths.
+//! In this crate a point does nothing; the verification harness compiles bucket.rs / controller/*.rs against its
+//! own `verif` module, where a point records an event and hands control back to a deterministic scheduler.
+
+pub async fn point(_label: &'static str, _detail: String) {}
